@@ -2471,7 +2471,12 @@ FROM (
         on_clause = self._join_on_clause(id_names, "a", "b")
 
         if op == tokens.INTERSECT:
-            return f"SELECT a.* FROM ({a_sql}) AS a SEMI JOIN ({b_sql}) AS b ON {on_clause}"
+            # intersect(ds1, ds2, ..., dsN): keep the datapoints of ds1 whose identifiers are
+            # present in every other operand.
+            sql = f"SELECT a.* FROM ({a_sql}) AS a SEMI JOIN ({b_sql}) AS b ON {on_clause}"
+            for other_sql in child_sqls[2:]:
+                sql = f"SELECT a.* FROM ({sql}) AS a SEMI JOIN ({other_sql}) AS b ON {on_clause}"
+            return sql
         elif op == tokens.SETDIFF:
             return f"SELECT a.* FROM ({a_sql}) AS a ANTI JOIN ({b_sql}) AS b ON {on_clause}"
         elif op == tokens.SYMDIFF:
